@@ -382,6 +382,48 @@ func c12Trees(thorough bool) []c12tree {
 		many[fmt.Sprintf("key/%03d/%d", i%17, i)] = bytes.Repeat([]byte{byte(i)}, i%23)
 	}
 	ts = append(ts, c12tree{Name: fmt.Sprintf("shared-prefix-%d", cnt), Contents: many})
+	// deep and bushy: a spine of d internal nodes (one leaf hanging off at every level) above a full subtree of
+	// 256 keys (several chunks), so that the parallel chunker splits tasks two ways at path lengths beyond 32
+	for _, d := range []int{33, 34, 38, 48} {
+		deep := kv.Contents{}
+		setBit := func(k []byte, i int) { k[i/8] |= 0x80 >> uint(i%8) }
+		for i := 0; i < d; i++ {
+			k := make([]byte, 8)
+			setBit(k, i)
+			deep[string(k)] = []byte(fmt.Sprintf("s%d", i))
+		}
+		for p := 0; p < 256; p++ {
+			k := make([]byte, 8)
+			for b := 0; b < 8; b++ {
+				if p&(128>>uint(b)) != 0 {
+					setBit(k, d+b)
+				}
+			}
+			deep[string(k)] = []byte(fmt.Sprintf("bushy value %03d ........", p))
+		}
+		ts = append(ts, c12tree{Name: fmt.Sprintf("deep-bushy-%d", d), Contents: deep})
+	}
+	// the same with an irregular subtree: 300 pseudo-random 10-byte keys below a spine of 48 (fixed generator)
+	{
+		deep := kv.Contents{}
+		for i := 0; i < 48; i++ {
+			k := make([]byte, 10)
+			k[i/8] = 0x80 >> uint(i%8)
+			deep[string(k)] = []byte(fmt.Sprintf("s%d", i))
+		}
+		x := uint64(0x9E3779B97F4A7C15)
+		for i := 0; i < 300; i++ {
+			k := make([]byte, 10)
+			for j := 6; j < 10; j++ {
+				x ^= x << 13
+				x ^= x >> 7
+				x ^= x << 17
+				k[j] = byte(x)
+			}
+			deep[string(k)] = []byte(fmt.Sprintf("value %d", i))
+		}
+		ts = append(ts, c12tree{Name: "deep-irregular-48", Contents: deep})
+	}
 	if thorough {
 		vals3 := [][]byte{nil, []byte("a"), {}}
 		n3 := kv.Pow(3, len(kv.Keys5))
@@ -428,6 +470,10 @@ func c12Tree(r *ev.Run, tr c12tree, dir string, otherCp *c12cp) *c12cp {
 		sizes = []uint64{1, 2, 100, 511, 512, 513, 4096, 16 * 1024, 1 << 20}
 	}
 	threadsList := []uint16{0, 1, 2, 3, 4, 8, 16, 32}
+	if strings.HasPrefix(tr.Name, "deep-") {
+		sizes = []uint64{1, 100, 300, 511, 1500, 4096}
+		threadsList = []uint16{0, 2, 4, 12, 32}
+	}
 	distinct := map[string]*c12cp{}
 	allSizes := sizes
 	distinctParams := map[string][2]uint64{}
@@ -483,10 +529,14 @@ func c12Tree(r *ev.Run, tr c12tree, dir string, otherCp *c12cp) *c12cp {
 	for k, cp := range distinct {
 		p := distinctParams[k]
 		n := len(cp.chunks)
-		if !small && n > 40 {
+		deepTree := strings.HasPrefix(tr.Name, "deep-")
+		if !small && n > 40 && !(deepTree && n <= 400) {
 			continue // restoring thousands of one-node chunks of the large tree adds nothing
 		}
 		orders := c12Orders(n)
+		if deepTree && n > 40 {
+			orders = orders[:1] // many chunks of a deep tree: what matters is that the chunks cover the tree
+		}
 		for _, be := range kv.Backends {
 			for oi, ord := range orders {
 				a := c12Artefact{ChunkSize: p[0], Threads: uint16(p[1]), Backend: be, Scenario: "restore", Order: ord}
